@@ -347,7 +347,11 @@ func (f *MemFile) ReadDir(n int) (entries []fs.DirEntry, err error) {
 		nd.mu.RUnlock()
 
 		f.dirEntriesLoaded = true
-		f.dirIndex = 0
+
+		if !f.dirNamesLoaded {
+			// ReadDir and Readdirnames read the same directory stream.
+			f.dirIndex = 0
+		}
 	}
 
 	start := f.dirIndex
@@ -426,7 +430,11 @@ func (f *MemFile) Readdirnames(n int) (names []string, err error) {
 		nd.mu.RUnlock()
 
 		f.dirNamesLoaded = true
-		f.dirIndex = 0
+
+		if !f.dirEntriesLoaded {
+			// ReadDir and Readdirnames read the same directory stream.
+			f.dirIndex = 0
+		}
 	}
 
 	start := f.dirIndex
